@@ -18,7 +18,8 @@ from ebpfcat.ebpfcat import SyncGroup, SyncManager
 PROP = "C30"
 LEVEL = "model_checking"
 RULE = ("terminal sets giving 1-3 cyclic datagrams (FMMU in, FMMU out, "
-        "direct) x all executions over CYCLES cycles: input pattern per cycle "
+        "direct), alone or after a group of another layout was laid out in "
+        "the same process, x all executions over CYCLES cycles: input pattern per cycle "
         "(3 choices, free) and, within the deviation bound, a wrong working "
         "counter per datagram per cycle (expected+1, expected-1 or 0) or a late frame; "
         "non-trivial = at least two device updates ran; distinct = distinct "
@@ -49,7 +50,28 @@ class LogCounter(logging.Handler):
             self.processed += 1
 
 
+def predecessor(cname):
+    """another sync group of this process, laid out (allocate()) before
+    the group under test exists: nothing of it may leak into the new one"""
+    w = ecworld.World()
+    try:
+        links = []
+        for i, (isz, osz, fmmu, rw) in enumerate(CONFIGS[cname]):
+            t = w.add_terminal(isz, osz, use_fmmu=fmmu)
+            if isz >= 2:
+                links.append((f"in{i}", t, IN, isz - 2, "H"))
+            if osz >= 2 and rw:
+                links.append((f"out{i}", t, OUT, osz - 2, "H"))
+        dev = ecworld.recorder_class([l[0] for l in links])(links)
+        SyncGroup(w.ec, [dev]).allocate()
+    finally:
+        w.close()
+
+
 def execute(ch, cname):
+    if " after " in cname:
+        cname, before = cname.split(" after ")
+        predecessor(before)
     conf = CONFIGS[cname]
     w = ecworld.World()
     handler = LogCounter()
@@ -267,6 +289,13 @@ def run(ctx):
     # quick: two of the three input patterns per cycle (non-zero first)
     execute.npatterns = 2 if ctx.quick else 3
     items = [(c, bound, 60000 if ctx.quick else 600000) for c in CONFIGS]
+    # the same groups when another group of a different layout was laid
+    # out in this process before (one deviation less: the history is one)
+    names = list(CONFIGS)
+    for i, c in enumerate(names):
+        for k in (1, 3) if ctx.quick else range(1, len(names)):
+            items.append((f"{c} after {names[(i + k) % len(names)]}",
+                          bound - 1, 60000 if ctx.quick else 600000))
     res = core.pmap(ctx, work, items, chunk=1)
     res.cov["states"] = len(res.nontrivial)
     res.cov["traces_validated_against_impl"] = res.cov.get("evaluations", 0)
